@@ -149,6 +149,28 @@ CloserContract(e, hdr) ==
                   (IF e.r # 0 /\ \E k \in Sup : LE(e.t, k) /\ LE(k, e.r) /\ ~LE(e.r, k) THEN <<"supported_logic_strictly_between">> ELSE <<>>),
          skip |-> <<>>, wit |-> -1]
 
+(* Factory.get_solver(name, logic): solvers[s] = the logics solver s declares, prefs = the preference list
+   (solver indices), name = 0 (none given) / solver index / -1 (unknown name), t = the requested logic (the
+   default logic when none was given), rs / rl = the solver instantiated and the logic handed to it
+   (0 = NoSolverAvailableError).  Selection refines CloserContract: the solver must support the request, be
+   the first supporting one of the preference list when no name is given, and receive its closest logic. *)
+FactoryContract(e, hdr) ==
+    LET LE(i, j) == hdr.le[i][j] = 1
+        n == Len(e.solvers)
+        Supports(sv) == \E k \in SeqSet(e.solvers[sv]) : LE(e.t, k)
+        cands == IF e.name = 0 THEN {sv \in 1..n : Supports(sv)}
+                 ELSE IF e.name \in 1..n /\ Supports(e.name) THEN {e.name} ELSE {}
+        usable == IF e.name = 0 THEN {j \in 1..Len(e.prefs) : e.prefs[j] \in cands} ELSE {}
+        want == IF e.name # 0 THEN (IF cands = {} THEN 0 ELSE e.name)
+                ELSE IF usable = {} THEN 0 ELSE e.prefs[CHOOSE j \in usable : \A k \in usable : j <= k]
+        closest == e.rs # 0 /\ e.rl # 0 /\ e.rl \in SeqSet(e.solvers[e.rs]) /\ LE(e.t, e.rl)
+                   /\ ~\E k \in SeqSet(e.solvers[e.rs]) : LE(e.t, k) /\ LE(k, e.rl) /\ ~LE(e.rl, k)
+    IN  [fail |-> (IF e.rs # 0 /\ (e.rs \notin 1..n \/ ~Supports(e.rs)) THEN <<"selected_solver_cannot_express_the_logic">> ELSE <<>>) \o
+                  (IF e.rs = 0 /\ want # 0 THEN <<"error_although_a_solver_supports_the_logic">> ELSE <<>>) \o
+                  (IF e.rs # 0 /\ want # 0 /\ e.rs # want THEN <<"not_the_first_preferred_supporting_solver">> ELSE <<>>) \o
+                  (IF e.rs # 0 /\ e.rs \in 1..n /\ Supports(e.rs) /\ ~closest THEN <<"solver_not_given_its_closest_logic">> ELSE <<>>),
+         skip |-> <<>>, wit |-> -1]
+
 (* most generic: r = index or 0 (error) *)
 MostGenericContract(e, hdr) ==
     LET LE(i, j) == hdr.le[i][j] = 1
